@@ -36,6 +36,10 @@ fn run(id: &str, tier: Tier, replay: Option<(String, serde_json::Value)>) -> i32
             rep.finish()
         }
         "C20" => {
+            // scenarios run one at a time (deadlines and CPU accounting must not be disturbed), and a failing scenario
+            // costs seconds, so shrinking is kept short
+            std::env::set_var("VERIF_THREADS", "1");
+            std::env::set_var("VERIF_MAX_SHRINK", "6");
             let rep = Report::with_replay("C20", tier, c20::LEVEL, c20::RULE, replay);
             c20::check(&rep);
             rep.finish()
